@@ -396,6 +396,76 @@ class ConcreteValidate(Target):
 CycleCheck.alternatives = {'a-cycle-is-rejected': 'cycle-rejection'}
 CycleCheck.alt_case = lambda self, c, st: st.shape
 
+class SchemaRejectsBounded:
+    """BOUNDED stand-in (native) for the schema half of the statement ('an unknown option key, a wrongly typed option ...
+    is rejected'): FlowIR.validate_component on a fully populated valid component reports nothing; with ONE key
+    misspelled, or ONE typed option given a value of another type, it reports something -- for every key / typed
+    option of the default component (single-fault mutations at every position)."""
+    name = 'schema-rejects-single-faults[bounded]'
+
+    @staticmethod
+    def leaves(d, pre=()):
+        for k, v in d.items():
+            if isinstance(v, dict) and v:
+                yield from SchemaRejectsBounded.leaves(v, pre + (k,))
+            else:
+                yield pre + (k,), v
+
+    def run(self, tier='quick', seed=0):
+        import copy, logging
+        logging.disable(logging.CRITICAL)
+        try:
+            base = FlowIR.inject_default_values_to_component({'name': 'c', 'stage': 0, 'command': {'executable': 'ls'}}, True)
+            ids = [(0, 'c')]
+            bad, cases = [], 1
+            errs = FlowIR.validate_component(copy.deepcopy(base), component_ids=ids, known_platforms=['default'], top_level_folders=[])
+            if errs:
+                bad.append({"what": "the valid component is reported: %s" % errs[:2], "replay": self._replay('valid', None)})
+            for route, default in self.leaves(base):
+                if route[0] in ('name', 'stage', 'variables', 'override', 'executors') or route[:3] == ('resourceManager', 'kubernetes', 'podSpec'):
+                    continue
+                # (1) misspelled key
+                cases += 1
+                comp = copy.deepcopy(base)
+                d = comp
+                for k in route[:-1]:
+                    d = d[k]
+                d[route[-1] + 'Typo'] = d.pop(route[-1])
+                if not FlowIR.validate_component(comp, component_ids=ids, known_platforms=['default'], top_level_folders=[]):
+                    bad.append({"what": "unknown key %s is accepted" % '.'.join(route[:-1] + (route[-1] + 'Typo',)),
+                                "replay": self._replay('unknown-key', route)})
+                # (2) wrong type: a dictionary where a scalar / list is expected
+                if isinstance(default, (bool, int, float)) or default is None or isinstance(default, str):
+                    cases += 1
+                    comp = copy.deepcopy(base)
+                    d = comp
+                    for k in route[:-1]:
+                        d = d[k]
+                    d[route[-1]] = {'unexpected': ['structure']}
+                    try:
+                        accepted = not FlowIR.validate_component(comp, component_ids=ids, known_platforms=['default'], top_level_folders=[])
+                    except Exception:
+                        accepted = False      # an exception here is collected by _initialize (funnel target above): rejected
+                    if accepted:
+                        bad.append({"what": "option %s accepts a dictionary" % '.'.join(route), "replay": self._replay('wrong-type', route)})
+        finally:
+            logging.disable(logging.NOTSET)
+        return {"name": self.name, "bounded": True, "bound": "single faults at every key of the default component", "cases": cases,
+                "violations": bad[:3], "summary": "%d single-fault components, %d accepted wrongly" % (cases, len(bad))}
+
+    def _replay(self, kind, route):
+        import json, os
+        base = os.environ.get('PYVC_OUT') or os.path.dirname(os.path.dirname(os.path.abspath(__file__)))
+        p = os.path.join(base, 'replays', 'C11')
+        os.makedirs(p, exist_ok=True)
+        f = os.path.join(p, 'schema_single_fault.json')
+        json.dump({"property": "C11", "check": self.name, "fault": kind, "route": list(route or ()),
+                   "how": "FlowIR.validate_component on inject_default_values_to_component({name, stage, command.executable}, True) "
+                          "with this single fault"}, open(f, 'w'), indent=1)
+        return f
+
+
 TARGETS = [ValidateReferences(), DuplicateIdentifiers(), TryReportErrors(), InitializeFunnel(), CycleCheck(),
            PropagateReplicateCycles(), ConcreteValidate()]
 LEMMAS = []
+BOUNDED = [SchemaRejectsBounded()]
